@@ -444,13 +444,16 @@ def network(ctx, fxs):
              "in-flight send, in-flight receive and completed-receive deques are only appended at the back and consumed from the "
              "front, and a receive is handed over only when it is the oldest in flight")
     det = []
-    table = [("sendBuffer::add", {"emplace_back", "push_back", "empty"}, "messages"),
-             ("sendBuffer::assemble", {"front", "pop_front", "empty", "begin", "end"}, "messages"),
-             ("recvBuffer::add", {"push_back", "emplace_back", "empty", "back"}, "data"),
-             ("recvBuffer::popVec", {"pop_front", "front", "size", "operator[]"}, "data"),
-             ("recvBuffer::erase", {"pop_front", "front", "size"}, "data"),
-             ("recvBuffer::sizeAtLeast", {"begin", "end"}, "data"),
-             ("recvBuffer::copyOut", {"operator[]", "size"}, "data")]
+    # per function: the mutating queue operations it may use; read-only queries are free everywhere (a whitelist of queries
+    # would make `data.empty()` for `!data.size()` an alarm)
+    QUERIES = {"empty", "size", "front", "back", "begin", "end", "cbegin", "cend", "rbegin", "rend", "operator[]", "at", "max_size"}
+    table = [("sendBuffer::add", {"emplace_back", "push_back"}, "messages"),
+             ("sendBuffer::assemble", {"pop_front"}, "messages"),
+             ("recvBuffer::add", {"push_back", "emplace_back"}, "data"),
+             ("recvBuffer::popVec", {"pop_front"}, "data"),
+             ("recvBuffer::erase", {"pop_front"}, "data"),
+             ("recvBuffer::sizeAtLeast", set(), "data"),
+             ("recvBuffer::copyOut", set(), "data")]
     nq = 0
     for nm, allowed, fld in table:
         f = get(nm)
@@ -460,7 +463,7 @@ def network(ctx, fxs):
         fn = ctx.fn(f)
         for _, e in fn.events(lambda e: e.get("k") == "call" and S(e.get("recv") or {}) == "this->" + fld):
             nq += 1
-            if e.get("name") not in allowed:
+            if e.get("name") not in allowed and e.get("name") not in QUERIES:
                 det.append("%s calls %s.%s (line %s)" % (nm, fld, e.get("name"), e.get("l")))
     # no other function touches the queues
     for q, f in fns.items():
@@ -482,14 +485,16 @@ def network(ctx, fxs):
     det = []
     nio = [f for f in fxs.functions if "NetworkIOMPI" in f["qn"] and f["kind"] != "pattern"]
     qops = 0
-    fifo_ok = {"empty", "front", "back", "pop_front", "emplace_back", "push_back", "size"}
+    # a deque stays a queue as long as nothing is inserted or removed anywhere but back / front; queries are free
+    not_fifo = {"push_front", "emplace_front", "pop_back", "insert", "emplace", "erase", "clear", "resize", "swap", "assign",
+                "operator=", "shrink_to_fit"}
     for f in nio:
         fn = ctx.fn(f)
         al = fn.aliases()
         short = f["qn"].split("NetworkIOMPI::")[-1]
         for _, e in fn.events(lambda e: e.get("k") == "call" and re.search(r"(^|\.|->)(inflight|done)$", S(e.get("recv") or {}, al))):
             qops += 1
-            if e.get("name") not in fifo_ok:
+            if e.get("name") in not_fifo:
                 det.append("%s uses %s.%s (line %s): the queue is no longer consumed strictly from the front" % (
                     short, S(e.get("recv"), al).split(".")[-1].split("->")[-1], e.get("name"), e.get("l")))
         if short.endswith("recvQueueTy::probe"):
@@ -504,6 +509,66 @@ def network(ctx, fxs):
     ctx.floor("NetworkIOMPI queue operations seen", qops, 10)
     if nio:
         ctx.ob("C17.net.fifo", "NetworkIOMPI", not det, "; ".join(det[:4]), "%s:%s" % (nio[0]["file"], nio[0]["line"]), "fifo-mpi")
+
+    ctx.rule("C17.net.tag-hint-tracks-head",
+             "recvBuffer::dataPresent is the tag of the head of the receive queue (~0 when empty) whenever the queue lock is "
+             "released -- recieveTagged() consults only this hint before it looks at the queue, so a stale hint makes a queued "
+             "message undeliverable. Every function that removes the head (pop_front) stores the hint again on every path to "
+             "its exit; a store of data.front().tag is only reached with the queue known non-empty, a store of ~0 only with it "
+             "known empty; add() publishes the new message's tag before the push whenever the queue was empty")
+    det = []
+    nonempty = lambda t: True if S(t) == "this->data.size()" else ("neg" if S(t) == "this->data.empty()" else False)
+    nhint = 0
+    for q, f in sorted(fns.items()):
+        if "recvBuffer::" not in q or "::lambda" in q:
+            continue
+        fn = ctx.fn(f)
+        short = q.split("NetworkInterfaceBuffered::")[-1]
+        hint = lambda e: (e.get("k") == "atomic" and e.get("kind") == "store" and e.get("p") == "this->dataPresent") or \
+            (e.get("k") == "assign" and e.get("lp") == "this->dataPresent")
+        pops = [p for p, e in fn.events(lambda e: e.get("k") == "call" and e.get("name") == "pop_front" and
+                                         S(e.get("recv") or {}) == "this->data")]
+        for p in pops:
+            nhint += 1
+            if fn.exit_reachable_without(hint, starts=[fn.after(p)]):
+                det.append("%s: a path from data.pop_front() (line %s) leaves without storing the head's tag into dataPresent: "
+                           "when another message with a different tag is queued behind it, it is never delivered" % (
+                               short, fn.ev(p).get("l")))
+        ge_ne = fn.guard_edges(nonempty, True)
+        ge_em = fn.guard_edges(nonempty, False)
+        for p, e in fn.events(hint):
+            val = S((e.get("a") or [None])[0]) if e.get("k") == "atomic" else S(e.get("rhs"))
+            me = fn.ev(p)
+            if "front()" in val:
+                h, _ = fn.search([fn.entry_state()], stop=lambda x: x is me, edge_ok=lambda b, i, s_: (b, i) not in ge_ne)
+                if h:
+                    det.append("%s: the head's tag is read (line %s) without the queue being known non-empty" % (short, e.get("l")))
+                if "this->data.front().tag" not in val:
+                    det.append("%s: hint set to %s" % (short, val))
+            elif val in ("~0", "(~0)", "4294967295"):
+                h, _ = fn.search([fn.entry_state()], stop=lambda x: x is me, edge_ok=lambda b, i, s_: (b, i) not in ge_em)
+                if h:
+                    det.append("%s: the hint is cleared (line %s) although the queue may hold messages" % (short, e.get("l")))
+            elif short.endswith("recvBuffer::add"):
+                msg = f["params"][0]["n"]
+                if val != msg + ".tag":
+                    det.append("add: hint set to %s, not the tag of the message being queued" % val)
+                h, _ = fn.search([fn.entry_state()], stop=lambda x: x is me, edge_ok=lambda b, i, s_: (b, i) not in ge_em)
+                if h:
+                    det.append("add: the hint is overwritten although older messages are queued in front")
+            else:
+                det.append("%s: hint set to %s" % (short, val))
+        if short.endswith("recvBuffer::add"):
+            push = lambda e: e.get("k") == "call" and e.get("name") in ("push_back", "emplace_back") and S(e.get("recv") or {}) == "this->data"
+            # with the queue empty the push must not be reached without publishing the tag
+            h, _ = fn.search([fn.entry_state()], stop=lambda x: push(x) or hint(x), edge_ok=lambda b, i, s_: (b, i) not in ge_ne)
+            if any(push(fn.ev(x)) for x in h):
+                det.append("add: a message is queued into an empty queue without publishing its tag")
+            if not any(True for _ in fn.events(push)):
+                det.append("add: no push")
+            nhint += 1
+    ctx.floor("tag-hint anchors (head removals and add)", nhint, 3)
+    ctx.ob("C17.net.tag-hint-tracks-head", "NetworkInterfaceBuffered::recvBuffer", not det, "; ".join(det[:4]), fa.loc(), "hint")
 
     ctx.rule("C17.net.lock", "recvBuffer: the public entry points popMsg() and add() hold qlock for their whole body and the private "
              "helpers that touch `data` / `frontOffset` are called only from popMsg(); sendBuffer: `messages` is touched only while "
